@@ -198,6 +198,9 @@ def gen_plan(j, rng):
                         d.pop("lat", None)
                 else:
                     op["net"] = [gen_net(rng, cfg["version"], inner=True) for _ in range(n - 1)] + [last]
+    if rng.random() < 0.15:
+        # the host's wall clock is stepped between two operations (NTP correction, manual change, RTC-less boot)
+        ops.insert(rng.randrange(0, len(ops) + 1), {"op": "jump", "s": rng.choice([-1.0, -3600.0, -86400.0 * 400, 86400.0, 45000.0])})
     if rng.random() < 0.2:
         # an unrelated device (other address, id, key, protocol version) and its client live in the same process
         cfg["bystander"] = {"version": rng.choice([2, 3]), "period": rng.choice([0.11, 0.3, 0.7, 1.3]),
